@@ -1,1 +1,13 @@
 import PorepyVerif.C35.Props
+#print axioms PorepyVerif.C35.expand_index_pointers_eq_ranges
+#print axioms PorepyVerif.C35.expand_index_pointers_broadcast
+#print axioms PorepyVerif.C35.rldecode_eq_repeat
+#print axioms PorepyVerif.C35.rlencode_eq_runs
+#print axioms PorepyVerif.C35.rleSpec_characterisation
+#print axioms PorepyVerif.C35.rldecode_rlencode
+#print axioms PorepyVerif.C35.stack_mat_eq_vstack
+#print axioms PorepyVerif.C35.stack_diag_eq_block_diag
+#print axioms PorepyVerif.C35.slice_eq_dense_index
+#print axioms PorepyVerif.C35.whereTrue_spec
+#print axioms PorepyVerif.C35.slice_indices_eq
+#print axioms PorepyVerif.C35.zero_rows_eq_dense
